@@ -68,18 +68,45 @@ R_NULL = _rule("R-NULL", "r_null", all_for=("C07",), text="a pointer parameter t
                "dominates (armed for the parameters where this holds at every dereference on the reviewed tree, tables/null_params.json)")
 
 
-def _const_run(cfg, tier):
+def _both_reprs(name, fn):
+    """Rules about the arithmetic representation are decided for the 64-bit (K0) AND the 32-bit (K3) limb layout on every
+    run, also in the quick tier: the pinned suite builds only one of them, so a slip in the other is exactly what the
+    tests cannot see.  K1 / K2 share K0's layout and add nothing; K3 is already covered when the run reaches it."""
+    def run(cfg, tier):
+        if cfg != "K0":
+            return [], {}
+        obs, st = _memo(name, "K0", fn)
+        obs3, st3 = _memo(name, "K3", fn)
+        for o in obs3:
+            o.oid = o.oid + "/32bit"
+            o.text = "[10x26 field, 8x32 scalar] " + o.text
+        st = dict(st)
+        st.update({"32bit_" + k: v for k, v in st3.items()})
+        return obs + obs3, st
+    return run
+
+
+def _const_fn(c):
     import r_const
-    return _memo("R-CONST", cfg, lambda c: r_const.obligations(c))
+    return r_const.obligations(c)
 
 
-R_CONST = {"name": "R-CONST", "run": _const_run}
+def _pack_fn(c):
+    import r_pack
+    return r_pack.obligations(sxlib.program(c))
+
+
+R_CONST = {"name": "R-CONST", "run": _both_reprs("R-CONST", _const_fn)}
+R_PACK = {"name": "R-PACK", "run": _both_reprs("R-PACK", _pack_fn)}
+RULE_TEXT["R-PACK"] = ("byte <-> limb packing (fe_set_b32_mod, fe_get_b32, fe_to_storage, fe_from_storage, scalar_set_b32, scalar_get_b32, read_be32/64) is the canonical "
+                       "big-endian bit layout: the statement trees are evaluated over a symbolic bit domain and every output bit is compared with the bit the representation "
+                       "defines, for the 5x52 / 4x64 and the 10x26 / 8x32 layouts")
 RULE_TEXT["R-CONST"] = ("numeric constants and precomputed tables, read from the compiler's IR of each configuration (and `clang -E -dM` for limb macros), satisfy their defining "
                         "identities computed by the checker from the SEC 2 parameters: group order / 2^256-n / n/2 limbs, modular-inverse parameters, G, lambda / beta and the GLV "
                         "lattice with g1, g2, n and p-n as field elements, ecmult_const K, sqrt(-3) constants of ElligatorSwift and SvdW, generator H, every entry of "
                         "secp256k1_pre_g / pre_g_128 ((2i+1)G, (2i+1)2^128 G) and of the ecmult_gen comb table")
 
-DECODE = [R_CHK, R_OBL, R_RED, R_ORD, R_TAG, R_BOOL, R_VERDICT, R_SCTX, R_MUST, R_CONST]
+DECODE = [R_CHK, R_OBL, R_RED, R_ORD, R_TAG, R_BOOL, R_VERDICT, R_SCTX, R_MUST, R_CONST, R_PACK]
 R_CURSOR = _rule("R-CURSOR", "r_cur", text="every read, copy and advance through the DER reader's (cursor, end) pointer pair stays inside the buffer: forward dataflow with the relational "
                  "facts end - cursor >= c and end - cursor >= v + c and byte-value ranges (armed groups, tables/cursor_sites.json)")
 R_SAME = _rule("R-SAME", "r_same", text="a validity test (is_infinity / is_zero) on an array element guards the use of that same element: the element expression of the test and of the "
@@ -126,7 +153,7 @@ _prop("C03", ALL_RULES,
 _prop("C04", ALL_RULES,
       "Key algebra, structural clauses.",
       "commutation of secret and public operations, correctness of heap sort beyond its length argument, lexicographic order")
-_prop("C05", [R_FLOW, R_PAIR, R_CONST],
+_prop("C05", [R_FLOW, R_PAIR, R_CONST, R_PACK, R_CAP],
       "Arithmetic and hashing kernel — the clauses with a structural part: (hashing) caller lengths reach secp256k1_sha256_write unmodified "
       "(tagged hash, HMAC), sha256_write moves data pointer and remaining length together, sha256_transform compresses consecutive blocks; "
       "scratch checkpoints of the multi-scalar batches are restored on every exit; (data) every numeric constant and every entry of the precomputed ecmult / ecmult_gen "
